@@ -10,6 +10,11 @@ CHECKS = {
    technique="TLA+ token machine (CfiExpr/CfiEval/CfiRules) model-checked by TLC; every TLC state replayed through the real parser + SymbolFile::walk_frame; random u64 programs recorded from the real evaluator and trace-validated by TLC (Trace_CfiEval)",
    text="The documented STACK CFI semantics are an explicit TLA+ specification on exact 64-bit limb arithmetic. TLC enumerates every program over the token alphabet up to a length bound and every small INIT/delta rule set, checks design invariants (no self-referential CFA, .undef fails, mandatory .cfa/.ra, deltas only affect addresses at or above them, registers with rules are set or cleared), and each enumerated state is executed on the real code and compared for equality (the property is equality with the documented semantics). Beyond the bound, random long programs over random u64 operands are recorded from the real evaluator (tokens, memory reads, result) and validated step by step by TLC.",
    note="Trusted: TLC, the transcription of walker.rs's module documentation into CfiExpr.tla/CfiRules.tla, Words.tla (self-tested against Rust each run), the mock FrameWalker/projection in harness/src/bin/replay_cfi.rs and record_cfi.rs. Exhaustive only within MaxLen / Extra bounds; CfiStackWalker's register forwarding is covered by the walker checks (C04/C05), not here."),
+ "C07": dict(
+   level="model_checking", design_ref="DESIGN.md section 5 'C07'",
+   technique="TLA+ token machine for STACK WIN program strings (WinEval) and step machine for FPO (WinFpo) on u32 limbs, model-checked by TLC; every TLC state replayed through the real parser + SymbolFile::walk_frame with a CfiStackWalker-like mock",
+   text="The documented STACK WIN semantics (variables, assignment, .undef, the '=tok' spelling, predefined constants incl. the '@' rule for .raSearch, 32-bit wrapping, the FPO formulae with the leftover-return-address skip, sums past 2^32 fail cleanly) are an explicit TLA+ specification. TLC enumerates every program up to a length bound over 7 register/size instances and every FPO configuration of a size grid, checks design invariants (only the six documented registers are reported, nothing is forwarded implicitly, caller esp above callee esp), and each state is executed on the real code and compared for equality incl. the caller's validity set.",
+   note="Trusted: TLC, the transcription of walker.rs's module docs into WinEval.tla/WinFpo.tla, Words.tla (self-tested each run), the mock FrameWalker in replay_win.rs (mirrors CfiStackWalker's forwarding/clear contract). Exhaustive only within MaxLen and the grids. Two open known findings (no-op '$'-prefixed clear) are listed in known-findings.json; a fix: commit repaired the size-overflow panics."),
 }
 
 NA_DEFAULT = "check not built yet (work in progress; DESIGN.md section 5 has the planned specification)"
